@@ -39,6 +39,10 @@ var Atoms = []string{
 	"\uff11", "\uff10", "\uff41", "\uff26", "\u0663", ":\uff18\uff10", "[::\uff41]", "[::1.2.3.18446744073709551617]", "18446744073709551617", "1.2.3.18446744073709551617",
 	// letters / signs that only LOOK like scheme characters (fullwidth, Cyrillic, Greek), Unicode spaces and BOM
 	"\uff21\uff22:", "\u0430:", "\u0391b:", "a\uff0bb:", "a\u2010b:", "\ufeff", "\ufeffhttp://h/", "\u0085", "\u00a0", "\u2003", "\u3000", "\u200b",
+	// code points whose low byte (U+01xx) or low 16 bits (U+100xx) equal an ASCII character the code
+	// branches on: a conversion to byte / uint16 somewhere would alias them
+	"\U00000130", "\U00000131", "\U00000138", "\U00000139", "\U0000013a", "\U0000012e", "\U0000012f", "\U00000125", "\U00000141", "\U00000146", "\U00000161", "\U00000166", "\U0000015b", "\U0000015d", "\U00000140", "\U0000013f", "\U00000123", "\U0000015c", "\U00000178", "\U00000120", "\U00000109", "\U0000010a", "\U0000012d", "\U0000012b", "\U0000013d", "\U00000126", "\U0000017c",
+	"\U00010030", "\U00010031", "\U00010039", "\U0001003a", "\U0001002e", "\U0001002f", "\U00010025", "\U00010061", "\U00010066", "\U00010040", "\U0001003f", "\U00010023",
 	// delimiters
 	":", ":", ":", "/", "/", "/", "//", "//", "\\", "\\", "\\\\", "?", "?", "#", "#", "@", "@", "[", "]", ";", "=", "&",
 	// dot segments
@@ -90,7 +94,7 @@ func Soup(t *rapid.T, label string, max int) string {
 var specialSchemes = []string{"http", "https", "ws", "wss", "ftp", "file"}
 var otherSchemes = []string{"foo", "a", "x-y.z+1", "git+ssh", "data", "mailto", "javascript", "blob", "about", "non-special", "sc", "h2"}
 
-var hostDomains = []string{"example.com", "h", "a.b.c", "EXAMPLE.org", "localhost", "www.example.com.", "xn--nxasmq6b.com", "faß.de", "日本語.jp", "a_b", "a-b.c-d", "x", "test", "ex%41mple.com", "%65xample", "Ｇｏ.com", "a.b..c", "-a-", "1a", "a1.2b"}
+var hostDomains = []string{"localhost.", "LOCALHOST.", ".localhost", "localhost..", "localhost.localdomain", "example.com", "h", "a.b.c", "EXAMPLE.org", "localhost", "www.example.com.", "xn--nxasmq6b.com", "faß.de", "日本語.jp", "a_b", "a-b.c-d", "x", "test", "ex%41mple.com", "%65xample", "Ｇｏ.com", "a.b..c", "-a-", "1a", "a1.2b"}
 var hostIPv4 = []string{"1.2.3.4", "127.0.0.1", "0x7f.1", "017.0.0.1", "4294967295", "0xffffffff", "1.2.3", "1.256", "256.1.1.1", "1.2.3.4.5", "1.2.3.4.", "0x", "0x.0x", "08", "1.2.3.08", "0300.0250.0.01", "999999999999", "1..2.3", "0XaBc", "1.0x", "%31.2.3.4", "１.2.3.4", "a.1", "a.0x1", "a.1.", "1.a", "+1", "-1", "0x-1", "1.2.3.+4"}
 var hostIPv6 = []string{"[::1]", "[1:2:3:4:5:6:7:8]", "[::]", "[1::]", "[::1.2.3.4]", "[0:0:0:0:0:0:0:0]", "[1:0:0:2:0:0:0:3]", "[1:0:0:0:2:0:0:3]", "[A:b::C]", "[0001:0::1]", "[::ffff:c0a8:1]", "[1:2:3:4:5:6:1.2.3.4]", "[1:2:3:4:5:6:7]", "[1:2:3:4:5:6:7:8:9]", "[:1]", "[1::2::3]", "[12345::]", "[::g]", "[::1.2.3]", "[::1.2.3.4.5]", "[::01.2.3.4]", "[::1.2.3.256]", "[1:2:3:4:5:6:7:1.2.3.4]", "[::1", "[[::1]]", "[::1]]", "[]", "[::%31]", "[::1]x", "[1:2:3:4:5:6::7:8]", "[1::8:]", "[0:0:1:0:0:1:0:0]",
 	"[1:2:3:4:5:6:1.2.3.4.5]", "[1:2:3:4:5:6:1.2.3.4.]", "[1:2:3:4:5:6:1.2.3.4:5]", "[1:2:3:4:5:6:7:8:]", "[1:2:3:4:5:6:7:8.]", "[1:2:3:4:5:6:7:8.9]", "[1:2:3:4:5:6:7::]", "[::1:2:3:4:5:6:7:8]", "[1:2:3:4:5:6:7:8::]", "[1:2:3:4:5:6:255.255.255.255.255]", "[::1.2.3.4.5.6.7.8]"}
@@ -416,6 +420,9 @@ func InputWithBase(t *rapid.T) (input, base string, hasBase bool) {
 		return Input(t, "input"), "", false
 	}
 	base = BaseString(t, "base")
+	if rapid.IntRange(0, 15).Draw(t, "selfRef") == 0 {
+		return base, base, true // a URL resolved against itself (byte-identical strings)
+	}
 	if rapid.IntRange(0, 1).Draw(t, "refOrInput") == 0 {
 		input = Ref(t, "ref", SchemeOf(base))
 	} else {
@@ -429,7 +436,7 @@ func InputWithBase(t *rapid.T) (input, base string, hasBase bool) {
 
 var protoVals = []string{"http", "https", "ws", "wss", "ftp", "file", "foo", "a", "http:", "https://x", "file:", "HTTP", "h ttp", "", ":", "1a", "a+b-c.d", "é", "http\x00", "ws:x", "b:", "FILE", "gopher", "foo:bar", "\thttp", "ht\ntp"}
 var userVals = []string{"", "u", "user", "a b", "a:b", "a@b", "a/b", "é", "%41", "%", "%zz", "\x00", "\x7f", "a;=b", "[x]", "{y}", "|^", "\xff", "~!$&'()*+,", "\"<>`", "?#", "\\", "\t"}
-var hostVals = []string{"", "h", "example.com", "EXAMPLE.com", "h:82", "h:", ":83", "h:80", "h:443", "h:65536", "h:8x", "1.2.3.4", "0x7f.1", "1.2.3.256", "[::2]", "[::2]:84", "[::2", "[[::2]]", "[::2]]", "localhost", "LocalHost",
+var hostVals = []string{"localhost.", "", "h", "example.com", "EXAMPLE.com", "h:82", "h:", ":83", "h:80", "h:443", "h:65536", "h:8x", "1.2.3.4", "0x7f.1", "1.2.3.256", "[::2]", "[::2]:84", "[::2", "[[::2]]", "[::2]]", "localhost", "LocalHost",
 	"a b", "a%20b", "a/b", "a?b", "a#b", "a\\b", "a@b", "u@h", "h/p", "h?q", "h#f", "xn--", "é", "x:y", " h", "h ", "\th", "%00", "a<b", "C:", "c|", "+1", "-1", "1.2.3.4.5", "0x", "a.0", "a.1.", "..", "a..", "%2e", "h:00085", "h:99999999999999999999", "\xff", "[1::8]x", "h:81/p", "h:81?q"}
 var portVals = []string{"", "0", "80", "443", "21", "8080", "65535", "65536", "00080", "8a", "a8", "-1", "+1", " 80", "80 ", "99999999999999999999", "8/0", "8?0", "8#0", "8\\0", "٨", "\t80", "8\n0", "0x50", "443x", ":80", "1 2"}
 var pathVals = []string{"", "/", "a", "/a", "/a/b", "//", "//x", "/.//x", "/..", "/../a", ".", "..", "/%2e", "/%2E%2e/x", "a b", "/a b", "?", "#", "/a?b", "/a#b", "\\", "\\a\\b", "/C|/x", "C|", "/c:/..", "é", "%", "%zz", "/\x00", "/\xff", "/{}`\"<>", "/a/./b/../c", "///", " /", "/ ", "\t/x", "/x\n"}
@@ -468,3 +475,7 @@ func StartURL(t *rapid.T, label string) string {
 		return pick(t, label, ExtremeStarts)
 	}
 }
+
+// LowByteAliases: code points U+01xx / U+100xx whose low byte / low 16 bits are ASCII digits, hex
+// letters and delimiters (see the atom pool).
+var LowByteAliases = []string{"\U00000130", "\U00000131", "\U00000138", "\U00000139", "\U0000013a", "\U0000012e", "\U0000012f", "\U00000125", "\U00000141", "\U00000146", "\U00000161", "\U00000166", "\U0000015b", "\U0000015d", "\U00000140", "\U0000013f", "\U00000123", "\U0000015c", "\U00000178", "\U00000120", "\U00000109", "\U0000010a", "\U0000012d", "\U0000012b", "\U0000013d", "\U00000126", "\U0000017c", "\U00010030", "\U00010031", "\U00010039", "\U0001003a", "\U0001002e", "\U0001002f", "\U00010025", "\U00010061", "\U00010066", "\U00010040", "\U0001003f", "\U00010023"}
